@@ -550,6 +550,37 @@ static size_t get_value_size(carquet_physical_type_t type, int32_t type_length) 
 }
 
 /* ============================================================================
+ * Helper: bounds of a page inside a memory-mapped file or caller buffer
+ * ============================================================================
+ */
+
+/**
+ * Offsets come from the footer and sizes from the page header; both are
+ * untrusted. Returns the number of bytes available at page_offset (0 if the
+ * offset is outside the file).
+ */
+static size_t mapped_bytes_at(const carquet_reader_t* file_reader, int64_t page_offset) {
+    if (page_offset < 0 || (uint64_t)page_offset >= (uint64_t)file_reader->file_size) {
+        return 0;
+    }
+    return file_reader->file_size - (size_t)page_offset;
+}
+
+/**
+ * A page (header + stored body) must lie inside the bytes available at its
+ * offset, and its declared sizes must be non-negative.
+ */
+static bool page_fits(const parquet_page_header_t* header, size_t header_size, size_t available) {
+    if (header->compressed_page_size < 0 || header->uncompressed_page_size < 0) {
+        return false;
+    }
+    if (header_size > available) {
+        return false;
+    }
+    return (size_t)header->compressed_page_size <= available - header_size;
+}
+
+/* ============================================================================
  * Helper: retained page buffers for BYTE_ARRAY values
  * ============================================================================
  */
@@ -601,18 +632,28 @@ static carquet_status_t load_dictionary_page_mmap(
     const parquet_column_metadata_t* col_meta = reader->col_meta;
 
     /* Parse page header directly from mmap */
+    size_t available = mapped_bytes_at(file_reader, dict_offset);
+    if (available == 0) {
+        CARQUET_SET_ERROR(error, CARQUET_ERROR_INVALID_PAGE, "Dictionary page offset outside file");
+        return CARQUET_ERROR_INVALID_PAGE;
+    }
     const uint8_t* header_ptr = mmap_data + dict_offset;
 
     parquet_page_header_t page_header;
     size_t header_size;
     carquet_status_t status = parquet_parse_page_header(
-        header_ptr, 256, &page_header, &header_size, error);
+        header_ptr, available < 256 ? available : 256, &page_header, &header_size, error);
     if (status != CARQUET_OK) {
         return status;
     }
 
     if (page_header.type != CARQUET_PAGE_DICTIONARY) {
         CARQUET_SET_ERROR(error, CARQUET_ERROR_INVALID_PAGE, "Expected dictionary page");
+        return CARQUET_ERROR_INVALID_PAGE;
+    }
+
+    if (!page_fits(&page_header, header_size, available)) {
+        CARQUET_SET_ERROR(error, CARQUET_ERROR_INVALID_PAGE, "Dictionary page extends past end of file");
         return CARQUET_ERROR_INVALID_PAGE;
     }
 
@@ -716,6 +757,11 @@ static carquet_status_t load_dictionary_page_fread(
 
     if (page_header.type != CARQUET_PAGE_DICTIONARY) {
         CARQUET_SET_ERROR(error, CARQUET_ERROR_INVALID_PAGE, "Expected dictionary page");
+        return CARQUET_ERROR_INVALID_PAGE;
+    }
+
+    if (page_header.compressed_page_size < 0 || page_header.uncompressed_page_size < 0) {
+        CARQUET_SET_ERROR(error, CARQUET_ERROR_INVALID_PAGE, "Negative dictionary page size");
         return CARQUET_ERROR_INVALID_PAGE;
     }
 
@@ -827,12 +873,17 @@ static carquet_status_t load_next_page_mmap(
 
     /* Parse page header directly from mmap */
     int64_t page_offset = reader->data_start_offset + reader->current_page;
+    size_t available = mapped_bytes_at(file_reader, page_offset);
+    if (available == 0) {
+        CARQUET_SET_ERROR(error, CARQUET_ERROR_INVALID_PAGE, "Page offset outside file");
+        return CARQUET_ERROR_INVALID_PAGE;
+    }
     const uint8_t* header_ptr = mmap_data + page_offset;
 
     parquet_page_header_t page_header;
     size_t header_size;
     carquet_status_t status = parquet_parse_page_header(
-        header_ptr, 256, &page_header, &header_size, error);
+        header_ptr, available < 256 ? available : 256, &page_header, &header_size, error);
     if (status != CARQUET_OK) {
         return status;
     }
@@ -847,9 +898,14 @@ static carquet_status_t load_next_page_mmap(
             return status;
         }
         page_offset = reader->data_start_offset;
+        available = mapped_bytes_at(file_reader, page_offset);
+        if (available == 0) {
+            CARQUET_SET_ERROR(error, CARQUET_ERROR_INVALID_PAGE, "Page offset outside file");
+            return CARQUET_ERROR_INVALID_PAGE;
+        }
         header_ptr = mmap_data + page_offset;
         status = parquet_parse_page_header(
-            header_ptr, 256, &page_header, &header_size, error);
+            header_ptr, available < 256 ? available : 256, &page_header, &header_size, error);
         if (status != CARQUET_OK) {
             return status;
         }
@@ -863,6 +919,11 @@ static carquet_status_t load_next_page_mmap(
     }
     if (page_header.type != CARQUET_PAGE_DATA) {
         CARQUET_SET_ERROR(error, CARQUET_ERROR_INVALID_PAGE, "Expected data page");
+        return CARQUET_ERROR_INVALID_PAGE;
+    }
+
+    if (!page_fits(&page_header, header_size, available)) {
+        CARQUET_SET_ERROR(error, CARQUET_ERROR_INVALID_PAGE, "Page extends past end of file");
         return CARQUET_ERROR_INVALID_PAGE;
     }
 
@@ -1119,6 +1180,11 @@ static carquet_status_t load_next_page_fread(
     }
     if (page_header.type != CARQUET_PAGE_DATA) {
         CARQUET_SET_ERROR(error, CARQUET_ERROR_INVALID_PAGE, "Expected data page");
+        return CARQUET_ERROR_INVALID_PAGE;
+    }
+
+    if (page_header.compressed_page_size < 0 || page_header.uncompressed_page_size < 0) {
+        CARQUET_SET_ERROR(error, CARQUET_ERROR_INVALID_PAGE, "Negative page size");
         return CARQUET_ERROR_INVALID_PAGE;
     }
 
